@@ -383,3 +383,152 @@ def r5(R):
             R.violation(v.node if v.node.kind != 'for' else (
                 f.module.relpath, f.qualname, 'reference kept'), v.message,
                 g, v.path)
+
+
+# ------------------------------------------------------------------ C14.R6
+def _recv(call):
+    """('self', 'X') / ('local', name) for X.meth() / self.X.meth()"""
+    f = call.func
+    if not isinstance(f, ast.Attribute):
+        return None, None
+    v = f.value
+    if isinstance(v, ast.Name):
+        return ('local', v.id), f.attr
+    if isinstance(v, ast.Attribute) and isinstance(v.value, ast.Name) and \
+            v.value.id == 'self':
+        return ('self', v.attr), f.attr
+    return None, None
+
+
+@rule('C14.R6', 'the bytes taken from a pickle buffer are exactly what was '
+      'written for this record: a reused buffer is rewound AND truncated, '
+      'any other buffer is fresh', min_instances=3)
+def r6(R):
+    """Typestate of every in-memory buffer whose getvalue() is used:
+    fresh --getvalue--> consumed; consumed --seek(0)--> rewound;
+    rewound/consumed --truncate()--> fresh; `x = BytesIO()` --> fresh.
+    A buffer kept in an attribute is 'consumed' on entry (an earlier call
+    may have used it).  getvalue() in state consumed/rewound returns the
+    tail of an earlier, longer record after the new one."""
+    n = 0
+    for f in R.prog.all_functions():
+        sites = [c for c in walk_local(f.node) if isinstance(c, ast.Call)
+                 and _recv(c)[1] == 'getvalue']
+        if not sites:
+            continue
+        cls = f.cls
+        g, b, F = R.cfg(f, cls, max_depth=0)
+        bufs = {_recv(c)[0] for c in sites}
+        for buf in sorted(bufs):
+            n += 1
+            R.instance('%s: buffer %s' % (f.short, '.'.join(
+                ('self', buf[1]) if buf[0] == 'self' else (buf[1],))))
+            init = 'consumed' if buf[0] == 'self' else 'unset'
+
+            def edge(node, st, lab, tgt, buf=buf):
+                if lab in ('e', 'eb'):
+                    return st
+                a = node.ast
+                if node.kind == 'stmt' and isinstance(a, ast.Assign) and \
+                        isinstance(a.value, ast.Call):
+                    fn_ = dotted(a.value.func)
+                    fresh = fn_ and fn_[-1] in ('BytesIO', 'StringIO',
+                                                'TemporaryFile')
+                    for t in a.targets:
+                        if (buf[0] == 'local' and isinstance(t, ast.Name)
+                                and t.id == buf[1]) or (
+                                buf[0] == 'self' and dotted(t) ==
+                                ('self', buf[1])):
+                            return 'fresh' if fresh else 'unknown'
+                if node.kind in ('stmt', 'return', 'test') and a is not None:
+                    for c in ast.walk(a):
+                        if isinstance(c, ast.Call) and _recv(c)[0] == buf:
+                            m = _recv(c)[1]
+                            if m == 'seek' and st in ('consumed',):
+                                st = 'rewound'
+                            elif m == 'truncate' and not c.args:
+                                st = 'fresh'
+                            elif m == 'getvalue':
+                                st = 'consumed' if st in (
+                                    'fresh', 'unknown', 'unset') else st
+                return st
+
+            def at(node, st, buf=buf):
+                a = node.ast
+                if node.kind in ('stmt', 'return', 'test') and a is not None:
+                    for c in ast.walk(a):
+                        if isinstance(c, ast.Call) and _recv(c) == (
+                                buf, 'getvalue') and st in (
+                                    'consumed', 'rewound'):
+                            return Violation(
+                                'getvalue() on a buffer that was used '
+                                'before and is %s: if the earlier content '
+                                'was longer, its tail (state of another '
+                                'object) is returned after the new record'
+                                % ('rewound but not truncated'
+                                   if st == 'rewound' else 'not reset'))
+                return st
+
+            vs, stats = explore(g, init, at=at, edge=edge)
+            R.count(stats)
+            for v in vs:
+                R.violation(v.node, v.message, g, v.path)
+    R.require(n >= 3, 'expected the writer\'s reused buffer and the '
+              'per-record buffers of export and conflict resolution')
+
+
+# ------------------------------------------------------------------ C14.R7
+@rule('C14.R7', 'a reference carries the class only if the class (including '
+      'what it inherits) takes no constructor arguments: the reader makes '
+      'the ghost with klass.__new__(klass)', min_instances=2)
+def r7(R):
+    w = R.prog.cls(WRITER)
+    f = R.method(w, 'persistent_id')
+    g, b, F = R.cfg(f, w, max_depth=0)
+    seen = [0]
+
+    def newargs_atom(e):
+        """hasattr(k, '__getnewargs__') / getattr(k, '__getnewargs__', ..):
+        looks the attribute up through the MRO."""
+        return isinstance(e, ast.Call) and isinstance(e.func, ast.Name) \
+            and e.func.id in ('hasattr', 'getattr') and len(e.args) >= 2 \
+            and isinstance(e.args[1], ast.Constant) and \
+            e.args[1].value == '__getnewargs__'
+
+    def edge(node, st, lab, tgt):
+        if node.kind == 'test' and lab in ('T', 'F'):
+            for e, truth in implied_atoms(node.ast, lab):
+                if newargs_atom(e) and not truth:
+                    return True
+        return st
+
+    def with_class(v):
+        if isinstance(v, ast.Tuple) and len(v.elts) == 2:
+            return True
+        if isinstance(v, ast.List) and len(v.elts) == 2 and isinstance(
+                v.elts[0], ast.Constant) and v.elts[0].value == 'm':
+            return True
+        return False
+
+    def at(node, st):
+        if node.kind == 'return' and node.ast.value is not None and \
+                with_class(node.ast.value):
+            seen[0] += 1
+            if not st:
+                return Violation(
+                    'a reference with class is written on a path where '
+                    'hasattr(klass, \'__getnewargs__\') was not found false '
+                    '(an own-__dict__ test misses inherited '
+                    '__getnewargs__): the reader builds the ghost without '
+                    'constructor arguments / cannot pickle a broken class')
+        return st
+
+    vs, stats = explore(g, False, at=at, edge=edge)
+    R.count(stats)
+    R.require(seen[0] >= 2 or vs, 'persistent_id has no (oid, class) returns')
+    for r in walk_local(f.node):
+        if isinstance(r, ast.Return) and r.value is not None and \
+                with_class(r.value):
+            R.instance('persistent_id: %s' % ast.unparse(r))
+    for v in vs:
+        R.violation(v.node, v.message, g, v.path)
